@@ -1026,6 +1026,11 @@ func upTranslate(pkg *spPkg, si *schemaInfo, mi *msgInfo) (prog []*ux, failure s
 	if !found {
 		t.fail(ret, "ProtoMethods does not return &protoiface.Methods{… Unmarshal: unmarshal …}")
 	}
+	// the Methods literal, literally: the flags decide whether proto.UnmarshalOptions calls the closure at all under DiscardUnknown
+	if !spSame(t.text(ret), "return &"+t.pi+".Methods{\nNoUnkeyedLiterals: struct{}{},\nFlags: "+t.pi+".SupportMarshalDeterministic | "+t.pi+".SupportUnmarshalDiscardUnknown,\n"+
+		"Size: size,\nMarshal: marshal,\nUnmarshal: unmarshal,\nMerge: nil,\nCheckInitialized: nil,\n}") {
+		t.fail(ret, "ProtoMethods does not return the template's Methods literal (flags, Size, Marshal, Unmarshal, Merge: nil, CheckInitialized: nil)")
+	}
 	uses := 0
 	ast.Inspect(m.decl.Body, func(n ast.Node) bool {
 		if id, ok := n.(*ast.Ident); ok && id.Obj == uObj {
@@ -1228,12 +1233,14 @@ func upInputs(cfg config, c *upCtx, r *rng, g *vgen, mut *dmut) {
 	}
 	// truncations at every offset
 	for k, enc := range encs {
-		if k >= 2 && !cfg.thorough() {
+		if k >= 2 && !cfg.thorough() || k >= 8 {
 			break
 		}
 		step := 1
-		if len(enc) > 48 && !cfg.thorough() {
+		if len(enc) > 48 && (!cfg.thorough() || len(enc) > 1500) { // (the models, like the decoder, cost O(length) per record)
 			step = len(enc) / 48
+		} else if len(enc) > 200 {
+			step = len(enc) / 200
 		}
 		for cut := 1; cut < len(enc); cut += step {
 			c.run(enc[:cut], false, 0, nil, "trunc")
